@@ -176,14 +176,16 @@ theorem readEvent_sigInst (st : RState) (i : Inst) (rest : List XmlEv) (h : i.wf
       = (.ok (.signalInstance i.id i.seq i.ref),
          { st with id := none, sequenceNumber := none, ref := none }, rest) := by
   have hp := parseUsize_digits i.seq (by simpa [Inst.wf] using h)
-  simp [renderSigInst, textElem, digits_ne_nil, readEvent, readText, attrReq_id, attrReq_idRef, hp]
+  cases hr : i.refFirst <;>
+    simp [renderSigInst, hr, textElem, digits_ne_nil, readEvent, readText, attrReq_id, attrReq_idRef, hp]
 
 theorem readEvent_pduInst (st : RState) (i : Inst) (rest : List XmlEv) (h : i.wf = true) :
     readEvent st (renderPduInst i ++ rest)
       = (.ok (.pduInstance i.id i.ref i.seq),
          { st with id := none, sequenceNumber := none, ref := none }, rest) := by
   have hp := parseUsize_digits i.seq (by simpa [Inst.wf] using h)
-  simp [renderPduInst, textElem, digits_ne_nil, readEvent, readText, attrReq_id, attrReq_idRef, hp]
+  cases hr : i.refFirst <;>
+    simp [renderPduInst, hr, textElem, digits_ne_nil, readEvent, readText, attrReq_id, attrReq_idRef, hp]
 
 /-- `read_pdu` over the signal instances and the end of the PDU -/
 theorem readPdu_insts (insts : List Inst) (hw : insts.all Inst.wf = true) (bl : Nat)
@@ -528,6 +530,88 @@ theorem readFile_elems (d : List Elem) (hw : d.all Elem.wf = true) (rest : List 
     simp only [accAdd, List.foldl_cons]
     split <;> rfl
 
+/-- gap events are passed over by `read_event` -/
+theorem gap_silent (g : List XmlEv) (hg : g.all isGap = true) :
+    ∀ (st : RState) (Y : List XmlEv), readEvent st (g ++ Y) = readEvent st Y := by
+  induction g with
+  | nil => intro st Y; rfl
+  | cons x g ih =>
+    intro st Y
+    simp only [List.all_cons, Bool.and_eq_true] at hg
+    have := ih hg.2 st Y
+    cases x with
+    | other => simpa [readEvent] using this
+    | text t => simpa [readEvent] using this
+    | start t a => cases t <;> simp [isGap] at hg <;> simpa [readEvent] using this
+    | empty t a => cases t <;> simp [isGap] at hg <;> simpa [readEvent] using this
+    | end_ t => cases t <;> simp [isGap] at hg <;> simpa [readEvent] using this
+    | err => simp [isGap] at hg
+
+/-- the file loop over elements with gaps in front of each -/
+theorem readFile_gapped (d : List (List XmlEv × Elem))
+    (hw : d.all (fun x => x.1.all isGap && x.2.wf) = true) (rest : List XmlEv) :
+    ∀ (st : RState) (acc : Acc),
+    ∃ st', readFile st ((d.map fun x => x.1 ++ renderElem x.2).flatten ++ rest) acc
+      = readFile st' rest (accAdd acc (d.map (·.2))) := by
+  induction d with
+  | nil => intro st acc; exact ⟨st, by simp [accAdd]⟩
+  | cons x d ih =>
+    intro st acc
+    obtain ⟨g, e⟩ := x
+    simp only [List.all_cons, Bool.and_eq_true] at hw
+    obtain ⟨⟨hg, he⟩, hd⟩ := hw
+    simp only [List.map_cons, List.flatten_cons, List.append_assoc]
+    have hS := gap_silent g hg
+    have key : ∃ st1, readFile st (g ++ (renderElem e ++ ((d.map fun x => x.1 ++ renderElem x.2).flatten ++ rest))) acc
+        = readFile st1 ((d.map fun x => x.1 ++ renderElem x.2).flatten ++ rest) (accStep acc e) := by
+      cases e with
+      | pdu p => exact readFile_renderPdu p he st acc _ g hS
+      | frame f => exact readFile_renderFrame f he st acc _ g hS
+      | signal id c => exact readFile_renderSignal id c (by simpa [Elem.wf] using he) st acc _ g hS
+      | coding id b => exact readFile_renderCoding id b (by simpa [Elem.wf] using he) st acc _ g hS
+    obtain ⟨st1, h1⟩ := key
+    obtain ⟨st2, h2⟩ := ih hd st1 (accStep acc e)
+    refine ⟨st2, ?_⟩
+    rw [h1, h2]
+    simp only [accAdd, List.foldl_cons]
+
+/-- the file loop over a document with gaps -/
+theorem readFile_renderGapped (d : List (List XmlEv × Elem)) (tail : List XmlEv)
+    (hw : d.all (fun x => x.1.all isGap && x.2.wf) = true) (ht : tail.all isGap = true) (acc : Acc) :
+    readFile {} (renderGapped d tail) acc = .ok (accAdd acc (d.map (·.2))) := by
+  have hhead : ([.other, .start .other [.ok [0x78#8] (some [0x79#8])], .start .other []] : List XmlEv).all isGap
+      = true := by decide
+  cases d with
+  | nil =>
+    apply readFile_eof (st' := {}) (evs' := [])
+    have hall : ([.other, .start .other [.ok [0x78#8] (some [0x79#8])], .start .other []] ++ tail
+        : List XmlEv).all isGap = true := by
+      rw [List.all_append, hhead, ht]; rfl
+    have hr : renderGapped [] tail
+        = ([.other, .start .other [.ok [0x78#8] (some [0x79#8])], .start .other []] ++ tail)
+          ++ [.end_ .other, .end_ .other] := by
+      simp [renderGapped]
+    rw [hr, gap_silent _ hall]
+    simp [readEvent]
+  | cons x d =>
+    obtain ⟨g, e⟩ := x
+    -- the head of the file joins the gap in front of the first element
+    have hw' : (([.other, .start .other [.ok [0x78#8] (some [0x79#8])], .start .other []] ++ g, e) :: d).all
+        (fun x => x.1.all isGap && x.2.wf) = true := by
+      simp only [List.all_cons, Bool.and_eq_true] at hw ⊢
+      refine ⟨⟨?_, hw.1.2⟩, hw.2⟩
+      rw [List.all_append, hhead, hw.1.1]; rfl
+    obtain ⟨st', h⟩ := readFile_gapped _ hw' (tail ++ [.end_ .other, .end_ .other]) {} acc
+    have hr : renderGapped ((g, e) :: d) tail
+        = ((([.other, .start .other [.ok [0x78#8] (some [0x79#8])], .start .other []] ++ g, e) :: d).map
+            fun x => x.1 ++ renderElem x.2).flatten ++ (tail ++ [.end_ .other, .end_ .other]) := by
+      simp [renderGapped]
+    rw [hr, h]
+    simp only [List.map_cons]
+    apply readFile_eof (st' := st') (evs' := [])
+    rw [gap_silent tail ht]
+    simp [readEvent]
+
 /-- the file loop over a rendered document -/
 theorem readFile_render (d : FileDoc) (hw : d.all Elem.wf = true) (acc : Acc) :
     readFile {} (render d) acc = .ok (accAdd acc d) := by
@@ -556,6 +640,21 @@ theorem readFiles_render (files : List FileDoc) (hw : ∀ d ∈ files, d.all Ele
     rw [readFile_render d (hw d (List.mem_cons_self ..))]
     simp only []
     rw [ih (fun d' h => hw d' (List.mem_cons_of_mem _ h)), accAdd_append]
+
+/-- all files, each with gaps -/
+theorem readFiles_renderGapped (files : List (List (List XmlEv × Elem) × List XmlEv))
+    (hw : ∀ f ∈ files, f.1.all (fun x => x.1.all isGap && x.2.wf) = true ∧ f.2.all isGap = true)
+    (acc : Acc) :
+    readFiles (files.map fun f => some (renderGapped f.1 f.2)) acc
+      = .ok (accAdd acc (files.map fun f => f.1.map (·.2)).flatten) := by
+  induction files generalizing acc with
+  | nil => rfl
+  | cons f files ih =>
+    simp only [List.map_cons, readFiles, List.flatten_cons]
+    obtain ⟨h1, h2⟩ := hw f (List.mem_cons_self ..)
+    rw [readFile_renderGapped f.1 f.2 h1 h2]
+    simp only []
+    rw [ih (fun f' h => hw f' (List.mem_cons_of_mem _ h)), accAdd_append]
 
 theorem accAdd_eq (es : List Elem) (acc : Acc) :
     accAdd acc es
